@@ -176,7 +176,13 @@ func c08Main(r *run.Runner) {
 	r.Assume = []string{"tree printer c08print reads exported fields only; keyword synonyms are accepted as alternatives"}
 	b1 := tokenSweeps(r, 4, 6, c08One)
 	b2 := corruptionSweep(r, c08One)
-	r.Extra["bounds"] = map[string]any{"token_sequences": b1, "corruptions": b2}
+	scaleThorough = r.Thorough()
+	scale := scalePrograms()
+	r.Sweep("scale", int64(len(scale)), func(w *run.Worker, item int64) {
+		pr := gen.Print(scale[item])
+		c08One(w, pr.Layout(pr.Uniform(" ")).Source)
+	})
+	r.Extra["bounds"] = map[string]any{"token_sequences": b1, "corruptions": b2, "scale_programs": len(scale)}
 	r.Sample("T | where f ( a [ = ] )")
 	r.Sample("T | summarize a , by a")
 }
